@@ -55,16 +55,19 @@ struct Case {
     stray: Vec<usize>,
     /// a frame of a later exchange is waiting in the transport behind the burst (a further read would get it)
     trailing: bool,
+    /// give the stream up (drop it) after this many items and keep using the items obtained so far (0 = read on to
+    /// the end of the stream)
+    stop_after: usize,
 }
 
 impl Case {
     fn replay(&self) -> Value {
-        json!({"monitor": "c11", "replies": self.replies.iter().map(|r| json!([r.0, r.1, r.2])).collect::<Vec<_>>(), "chunk_of": self.chunk_of, "pendings": self.pendings, "via_proxy_stream": self.via_proxy_stream, "seed": self.seed, "warmup": self.warmup, "esc": self.esc, "stray": self.stray, "trailing": self.trailing})
+        json!({"monitor": "c11", "replies": self.replies.iter().map(|r| json!([r.0, r.1, r.2])).collect::<Vec<_>>(), "chunk_of": self.chunk_of, "pendings": self.pendings, "via_proxy_stream": self.via_proxy_stream, "seed": self.seed, "warmup": self.warmup, "esc": self.esc, "stray": self.stray, "trailing": self.trailing, "stop_after": self.stop_after})
     }
     fn hash(&self) -> u64 {
         let mut h = fnv(format!("{:?}{:?}", self.replies, self.chunk_of).as_bytes());
         h = fnv_mix(h, self.pendings as u64 * 2 + self.via_proxy_stream as u64);
-        h = fnv_mix(h, fnv(format!("{:?}{}", self.stray, self.trailing).as_bytes()));
+        h = fnv_mix(h, fnv(format!("{:?}{}{}", self.stray, self.trailing, self.stop_after).as_bytes()));
         fnv_mix(h, self.seed ^ (self.warmup as u64) << 32 ^ (self.esc as u64) << 63)
     }
 }
@@ -205,53 +208,65 @@ fn execute(case: &Case) -> Result<(usize, bool), Damage> {
 
     macro_rules! drive {
         ($stream:expr, $ty:ty, $get:expr) => {{
-            let stream = $stream;
-            let mut stream = core::pin::pin!(stream);
-            // every yielded item stays alive here
+            // every yielded item stays alive here - longer than the stream itself
             let mut held: Vec<($ty, String)> = Vec::new();
             let get = $get;
-            loop {
-                let mut polls = 0;
-                let delivered_before = wire.borrow().bytes_delivered;
-                let item = loop {
-                    polls += 1;
-                    if polls > case.pendings + 6 {
-                        break None;
-                    }
-                    if let core::task::Poll::Ready(x) = vnet::poll_once(core::pin::pin!(stream.next()).as_mut()) {
-                        break x;
+            macro_rules! reread {
+                () => {
+                    for (i, (it, copy)) in held.iter().enumerate() {
+                        let now: &str = get(it);
+                        rereads += 1;
+                        // compare bytes without assuming the slice is still valid UTF-8
+                        if now.as_bytes() != copy.as_bytes() {
+                            // copy through the stack: the dangling bytes may sit in freed heap memory
+                            let mut tmp = [0u8; 64];
+                            let k = now.len().min(64);
+                            tmp[..k].copy_from_slice(&now.as_bytes()[..k]);
+                            return Err(Damage { read_while_holding, item: i, after_obtaining: held.len() - 1, expected: copy.clone(), got: vnet::json::show(&tmp[..k]) });
+                        }
                     }
                 };
-                if !held.is_empty() && wire.borrow().bytes_delivered != delivered_before {
-                    read_while_holding = true;
-                }
-                // a connection-level failure or the end of the stream is "obtaining a further reply" too:
-                // the items held so far must still be intact afterwards
-                let mut stop = false;
-                match item {
-                    Some(Ok(item)) => {
-                        let text = get(&item).to_string();
-                        held.push((item, text));
-                    }
-                    _ => stop = true,
-                }
-                // re-read everything held so far
-                for (i, (it, copy)) in held.iter().enumerate() {
-                    let now: &str = get(it);
-                    rereads += 1;
-                    // compare bytes without assuming the slice is still valid UTF-8
-                    if now.as_bytes() != copy.as_bytes() {
-                        // copy through the stack: the dangling bytes may sit in freed heap memory
-                        let mut tmp = [0u8; 64];
-                        let k = now.len().min(64);
-                        tmp[..k].copy_from_slice(&now.as_bytes()[..k]);
-                        return Err(Damage { read_while_holding, item: i, after_obtaining: held.len() - 1, expected: copy.clone(), got: vnet::json::show(&tmp[..k]) });
-                    }
-                }
-                if stop || held.len() > n + 2 {
-                    break;
-                }
             }
+            {
+                let stream = $stream;
+                let mut stream = core::pin::pin!(stream);
+                loop {
+                    let mut polls = 0;
+                    let delivered_before = wire.borrow().bytes_delivered;
+                    let item = loop {
+                        polls += 1;
+                        if polls > case.pendings + 6 {
+                            break None;
+                        }
+                        if let core::task::Poll::Ready(x) = vnet::poll_once(core::pin::pin!(stream.next()).as_mut()) {
+                            break x;
+                        }
+                    };
+                    if !held.is_empty() && wire.borrow().bytes_delivered != delivered_before {
+                        read_while_holding = true;
+                    }
+                    // a connection-level failure or the end of the stream is "obtaining a further reply" too:
+                    // the items held so far must still be intact afterwards
+                    let mut stop = false;
+                    match item {
+                        Some(Ok(item)) => {
+                            let text = get(&item).to_string();
+                            held.push((item, text));
+                        }
+                        _ => stop = true,
+                    }
+                    // re-read everything held so far
+                    reread!();
+                    if stop || held.len() > n + 2 || (case.stop_after > 0 && held.len() >= case.stop_after) {
+                        break;
+                    }
+                }
+                // the stream is given up here, possibly before its end ...
+            }
+            // ... and what it handed out is still in use
+            let delivered_before = wire.borrow().bytes_delivered;
+            let _ = delivered_before;
+            reread!();
             let _ = held.len();
         }};
     }
@@ -328,6 +343,7 @@ pub fn run(cfg: &Cfg) -> Report {
             esc: r["esc"].as_bool().unwrap_or(false),
             stray: r["stray"].as_array().map(|a| a.iter().map(|x| x.as_u64().unwrap() as usize).collect()).unwrap_or_default(),
             trailing: r["trailing"].as_bool().unwrap_or(false),
+            stop_after: r["stop_after"].as_u64().unwrap_or(0) as usize,
         };
         let g = if case.chunk_of.iter().all(|c| *c == 0) { if case.warmup == 0 { "available" } else { "same" } } else { "separate" };
         check(&case, &mut rep, g);
@@ -348,12 +364,14 @@ pub fn run(cfg: &Cfg) -> Report {
         let n = rng.range(2, 6);
         let via_proxy_stream = rng.chance(1, 3);
         let big = rng.chance(1, 2);
+        let huge = cfg.layer != "miri" && group != "separate" && i % 9 == 4;
         // every third case ends in (or contains) a reply that surfaces as a connection-level failure
         let failing = i % 3 == 2;
         let fail_at = if failing { rng.range(1, n - 1) } else { usize::MAX };
         let replies: Vec<(u8, usize, bool)> = (0..n)
             .map(|k| {
-                let len = if big { *rng.pick(&[8usize, 40, 200, 300, 700, 2000]) } else { rng.range(6, 40) };
+                // now and then a burst of tens of KiB (beyond any plausible read-ahead threshold)
+                let len = if huge { *rng.pick(&[3000usize, 9000, 17_000, 33_000]) + rng.below(50) } else if big { *rng.pick(&[8usize, 40, 200, 300, 700, 2000]) } else { rng.range(6, 40) };
                 let len = if sanitized && cfg.layer == "miri" { len.min(300) } else { len };
                 let last = k == n - 1;
                 if k == fail_at {
@@ -404,7 +422,9 @@ pub fn run(cfg: &Cfg) -> Report {
         } else {
             (Vec::new(), false)
         };
-        let mut case = Case { replies, chunk_of, pendings: if group == "available" { 0 } else { rng.below(2) }, via_proxy_stream, seed: cfg.seed ^ i, warmup, esc, stray, trailing };
+        // every third same-read / available case gives the stream up early and goes on using the items
+        let stop_after = if group != "separate" && i % 3 == 1 { rng.range(1, n - 1) } else { 0 };
+        let mut case = Case { replies, chunk_of, pendings: if group == "available" { 0 } else { rng.below(2) }, via_proxy_stream, seed: cfg.seed ^ i, warmup, esc, stray, trailing, stop_after };
         if group == "available" {
             // The whole burst is in the transport before the first item is requested, but the receive buffer
             // is fresh, so zlink takes it in buffer-sized pieces. zlink keeps reading until a piece ends on a
@@ -439,6 +459,12 @@ pub fn run(cfg: &Cfg) -> Report {
         }
         if case.trailing {
             rep.count("cases_with_a_later_frame_waiting_in_the_transport");
+        }
+        if case.stop_after > 0 {
+            rep.count("cases_where_the_stream_is_given_up_early_and_the_items_are_used_afterwards");
+        }
+        if huge {
+            rep.count("cases_with_a_burst_of_tens_of_KiB");
         }
         check(&case, &mut rep, &group);
         if i < 3 {
